@@ -643,7 +643,7 @@ theorem After.step {s : State} {i : MyIntf} {l1 l2 : List MyIntf} {svc : Service
     simp [ReRun.next]
     omega
 
-theorem After.run {s : State} {i : MyIntf} {l1 l2 : List MyIntf} {svc : Service} {t2 : Nat} (j : Nat) :
+theorem After.run {i : MyIntf} {l1 l2 : List MyIntf} {svc : Service} {t2 : Nat} (j : Nat) :
     ∀ (ts : List Nat) (s : State), After s i l1 l2 svc t2 → (∀ t ∈ ts, t < t2) → After (idleRun j s ts).1 i l1 l2 svc t2 := by
   intro ts
   induction ts with
@@ -740,5 +740,70 @@ theorem iter_idle_reannounces {s : State} {i : MyIntf} {l1 l2 : List MyIntf} {sv
   refine ⟨v4, hne, List.mem_append.mpr (Or.inl ?_)⟩
   unfold runReruns
   exact hm
+
+/-! ### glue for the whole life cycle -/
+
+theorem iter_idle_entry' (s : State) (now j : Nat) (key : BList) (svc : Service) (h : Entry s key svc) :
+    Entry (iter s (idle now j)).1 key svc := by
+  cases hs : s.stopped with
+  | false => exact iter_idle_entry s now j key svc hs h
+  | true =>
+    have : iter s (idle now j) = (s, []) := by unfold iter; simp [hs]
+    rw [this]; exact h
+
+theorem idleRun_entry (j : Nat) (key : BList) (svc : Service) :
+    ∀ (ts : List Nat) (s : State), Entry s key svc → Entry (idleRun j s ts).1 key svc := by
+  intro ts
+  induction ts with
+  | nil => intro s h; exact h
+  | cons t ts ih => intro s h; exact ih _ (iter_idle_entry' s t j key svc h)
+
+/-- from the fresh probe to the state before the iteration at `T + 750` (timely scheduler) -/
+theorem idleRun_to_end (j : Nat) (i : MyIntf) (l1 l2 : List MyIntf) (n : BList) (T : Nat) (R : Cargo) (s : State)
+    (h : Good s i l1 l2 n T T R) (hfam : ∃ v4, i.hasFamily v4 = true) (pre0 pre1 pre2 pre3 : List Nat)
+    (h0 : ∀ t ∈ pre0, t < T) (h1 : ∀ t ∈ pre1, t < T + 250) (h2 : ∀ t ∈ pre2, t < T + 500) (h3 : ∀ t ∈ pre3, t < T + 750) :
+    Good (idleRun j s ((pre0 ++ [T]) ++ ((pre1 ++ [T + 250]) ++ ((pre2 ++ [T + 500]) ++ pre3)))).1 i l1 l2 n T (T + 750) R := by
+  obtain ⟨g1, _⟩ := idleRun_phase j i l1 l2 n T T R s pre0 h (by omega) hfam h0
+  obtain ⟨g2, _⟩ := idleRun_phase j i l1 l2 n T (T + 250) R _ pre1 g1 (by omega) hfam h1
+  obtain ⟨g3, _⟩ := idleRun_phase j i l1 l2 n T (T + 250 + 250) R _ pre2 g2 (by omega) hfam (by simpa [Nat.add_assoc] using h2)
+  obtain ⟨g4, _⟩ := idleRun_skip j i l1 l2 n T (T + 250 + 250 + 250) R pre3 _ g3 (by simpa [Nat.add_assoc] using h3)
+  have e500 : T + 500 = T + 250 + 250 := by omega
+  have e750 : T + 750 = T + 250 + 250 + 250 := by omega
+  rw [e500, e750, idleRun_append, idleRun_append, idleRun_append]
+  exact g4
+
+theorem sendUnsolicited_upToStatus (s : State) (svc : Service) (now j : Nat) : UpToStatus (sendUnsolicited s svc now j).svc svc := by
+  unfold sendUnsolicited
+  simp only []
+  refine foldl_inv (fun (u : Unsol) => UpToStatus u.svc svc) (unsolOnIntf now j) _ { state := s, svc := svc } (UpToStatus.refl svc) ?_
+  intro u i _ hu
+  unfold unsolOnIntf
+  simp only []
+  split <;> exact hu.setStatus _ _
+
+/-- after the iteration that processed `register(svc)` the service is registered under its lower-cased name -/
+theorem registration_entry (s : State) (svc : Service) (now j : Nat) (hrun : s.stopped = false)
+    (hlen : Names.checkServiceNameLength svc.ty s.nameLenMax = .ok ()) (hauto : svc.addrAuto = false) :
+    Entry (iter s { now := now, jitter := j, cmds := [.register svc] }).1 (lower svc.fullname) svc := by
+  rw [iter_register s svc now j hrun, registerService_eq { s with timers := s.timers.filter (· > now) } svc now j hlen hauto]
+  apply loopTail_entry
+  unfold registerChecked
+  exact ⟨_, alookup_aset_self _ _ _, sendUnsolicited_upToStatus _ svc now j⟩
+
+/-- the SRV record is a unique record in both families -/
+def srvOf (svc : Service) : RR :=
+  { name := svc.fullname, ty := TYPE_SRV, flush := true, ttl := TTL_HOST, rdata := .srv 0 0 svc.port svc.host }
+
+theorem srvOf_mem (svc : Service) (i : MyIntf) (v : Bool) : srvOf svc ∈ uniqueRecords svc i {} v := by
+  unfold uniqueRecords srvOf
+  simp [Registry.resolveName, alookup, withChange]
+
+theorem iter_idle_running (s : State) (now j : Nat) (h : s.stopped = false) : (iter s (idle now j)).1.stopped = false := by
+  rw [iter_idle s now j h]
+  exact (loopTail_frame _ now j).2.trans h
+
+theorem iter_idle_intfs (s : State) (now j : Nat) (h : s.stopped = false) : (iter s (idle now j)).1.intfs = s.intfs := by
+  rw [iter_idle s now j h]
+  exact (loopTail_frame _ now j).1
 
 end Mdns.Responder
